@@ -150,6 +150,15 @@ class Exec:
         line = f"@L{getattr(node, 'lineno', '?')}" if node is not None else ""
         self.pv.prove(f"{self.fname}#{kind}{line}", fr.pc, goal, detail)
 
+    def oblige_inv(self, kind, fr, val, node=None):
+        """An invariant may be given as a dict of named conjuncts: each is proved as its own (smaller) obligation."""
+        if isinstance(val, dict):
+            base, _, tail = kind.partition("#")
+            for label, part in val.items():
+                self.oblige(f"{base}:{label}" + (f"#{tail}" if tail else ""), fr, part, node)
+        else:
+            self.oblige(kind, fr, val, node)
+
     def assume(self, fr, c):
         if isinstance(c, bool):
             if not c:
@@ -376,7 +385,7 @@ class Exec:
         if inv is not None:
             fr.env["_i"] = 0
             fr.env["_acc"] = [fr.env.get(n) for n in acc_names]
-            self.oblige(f"inv-init:loop{ordinal}", fr, self.eval_spec(inv, fr), st)
+            self.oblige_inv(f"inv-init:loop{ordinal}", fr, self.eval_spec(inv, fr), st)
             closed_ok(fr, f"inv-init:loop{ordinal}")
         # ---- one arbitrary iteration
         i = fresh_int("i")
@@ -397,7 +406,7 @@ class Exec:
         closed_set(body)
         body.env["_acc"] = [body.env.get(n) for n in acc_names]
         if inv is not None:
-            self.assume(body, zbool(self.eval_spec(inv, body)))
+            self.assume(body, zbool(_inv_all(self.eval_spec(inv, body))))
         self.assign(st.target, it.get(i), body)
         dict_before = {oid: len(v.entries) for oid, v in body.heap.items() if isinstance(v, DictState)}
         outs = self.run_block(st.body, [body])
@@ -406,7 +415,7 @@ class Exec:
             if inv is not None:
                 f.env["_i"] = i + 1
                 f.env["_acc"] = [f.env.get(n) for n in acc_names]
-                self.oblige(f"inv-preserved:loop{ordinal}#{k}", f, self.eval_spec(inv, f), st)
+                self.oblige_inv(f"inv-preserved:loop{ordinal}#{k}", f, self.eval_spec(inv, f), st)
                 closed_ok(f, f"inv-preserved:loop{ordinal}#{k}")
             for oid, nb in dict_before.items():
                 st_ = f.heap.get(oid)
@@ -426,7 +435,7 @@ class Exec:
                 fr.env.pop(name, None)
         fr.env["_acc"] = [fr.env.get(n) for n in acc_names]
         if inv is not None:
-            self.assume(fr, zbool(self.eval_spec(inv, fr)))
+            self.assume(fr, zbool(_inv_all(self.eval_spec(inv, fr))))
         if isinstance(st.target, ast.Name):
             # after the loop the target holds the last element (if the loop ran)
             fr.env[st.target.id] = it.get(zint(n) - 1)
@@ -1784,6 +1793,12 @@ class Exec:
 
 
 # ---------------------------------------------------------------------- helpers
+
+
+def _inv_all(val):
+    if isinstance(val, dict):
+        return _and(list(val.values()))
+    return val
 
 
 def _mentions_any(v, var, heap):
